@@ -50,7 +50,8 @@ type History struct {
 	// wire
 	Mode string `json:"mode,omitempty"` // populated | absent | maporder | mismatch
 	Msg  string `json:"msg,omitempty"`
-	V    *Val   `json:"v,omitempty"`
+	// the top-level fields of the value (a list, so that check.py's shrinker can drop them one by one)
+	Fields []FV `json:"fields,omitempty"`
 }
 
 func vInt(n uint64) Val     { return Val{K: "i", N: strconv.FormatUint(n, 10)} }
@@ -64,7 +65,7 @@ func (v Val) coq() string {
 	case "i":
 		return "(VInt " + v.N + ")"
 	case "b":
-		return `(VB "` + v.B + `")`
+		return "(VY " + coqChunks(v.bytes()) + ")"
 	case "p":
 		return "(VPacked [" + strings.Join(v.P, "; ") + "])"
 	default:
@@ -74,6 +75,29 @@ func (v Val) coq() string {
 		}
 		return "(VMsg [" + strings.Join(xs, "; ") + "])"
 	}
+}
+
+// coqChunks prints a byte string as the arguments of Proto/Check.v [BY] / [VY]: the length and
+// the bytes in big-endian chunks of 7 held in primitive 63-bit integers.
+func coqChunks(b []byte) string {
+	if len(b) == 0 {
+		return "0 []"
+	}
+	var sb strings.Builder
+	sb.WriteString(strconv.Itoa(len(b)))
+	sb.WriteString(" [")
+	for i := 0; i < len(b); i += 7 {
+		var n uint64
+		for j := i; j < i+7 && j < len(b); j++ {
+			n = n<<8 | uint64(b[j])
+		}
+		if i > 0 {
+			sb.WriteString("; ")
+		}
+		sb.WriteString(strconv.FormatUint(n, 10))
+	}
+	sb.WriteString("]%uint63")
+	return sb.String()
 }
 
 // goEnc is the harness-side rendering of a tree as wire bytes (used to embed a message in an Any
@@ -919,7 +943,7 @@ func execWire(h History) lib.Case {
 		note(errPulsarBuild, "api family has no type "+h.Msg, err)
 	} else if mode != 3 {
 		pm := mt.New()
-		if err := safely(func() error { return setPulsar(pm, h.V.F) }); err != nil {
+		if err := safely(func() error { return setPulsar(pm, h.Fields) }); err != nil {
 			note(errPulsarBuild, "api family cannot hold the value", err)
 		} else {
 			P = pm.Interface()
@@ -929,7 +953,7 @@ func execWire(h History) lib.Case {
 		}
 	}
 	if mode == 3 {
-		pb = goEnc(*h.V) // the bytes as the gogoproto family lays the message out
+		pb = goEnc(vMsg(h.Fields...)) // the bytes as the gogoproto family lays the message out
 	}
 	gogoRound := func(in []byte, bit int, what string) []byte {
 		g := gogoNew(h.Msg)
@@ -991,9 +1015,21 @@ func execWire(h History) lib.Case {
 			}
 		}
 	}
-	hx := func(b []byte) string { return `"` + hex.EncodeToString(b) + `"` }
-	c.Coq = fmt.Sprintf("mkW %d %s %s %s %s %s %s %s %s %d", mode, coqStr(h.Msg), h.V.coq(), hx(pb), hx(gb), hx(g2b), hx(p2b), lib.B(eqp), lib.B(unstable), errs)
-	c.Steps = append([]string{fmt.Sprintf("%s %s value=%s", h.Mode, h.Msg, h.V.coq()),
+	// every distinct byte string is bound once; the whole case is read in N_scope
+	var lets strings.Builder
+	names := map[string]string{}
+	hx := func(b []byte) string {
+		if n, ok := names[string(b)]; ok {
+			return n
+		}
+		n := fmt.Sprintf("b%d", len(names))
+		names[string(b)] = n
+		lets.WriteString("let " + n + " := BY " + coqChunks(b) + " in ")
+		return n
+	}
+	a1, a2, a3, a4 := hx(pb), hx(gb), hx(g2b), hx(p2b)
+	c.Coq = fmt.Sprintf("(%smkW %d %s %s %s %s %s %s %s %s %d)%%N", lets.String(), mode, coqStr(h.Msg), vMsg(h.Fields...).coq(), a1, a2, a3, a4, lib.B(eqp), lib.B(unstable), errs)
+	c.Steps = append([]string{fmt.Sprintf("%s %s value=%s", h.Mode, h.Msg, vMsg(h.Fields...).coq()),
 		"api bytes        " + hex.EncodeToString(pb), "gogo bytes       " + hex.EncodeToString(gb),
 		"gogo re-encoded  " + hex.EncodeToString(g2b), "api re-encoded   " + hex.EncodeToString(p2b),
 		fmt.Sprintf("api decoded equal=%v unstable=%v errors=%d", eqp, unstable, errs)}, c.Steps...)
@@ -1006,7 +1042,7 @@ func execWire(h History) lib.Case {
 		lib.Stat(c.Stats, "res:error")
 	}
 	lib.Stat(c.Stats, fmt.Sprintf("bytes:2^%d", bitlen(len(pb))))
-	c.NonTrivial = hasStructure(*h.V)
+	c.NonTrivial = hasStructure(vMsg(h.Fields...))
 	return c
 }
 
@@ -1107,7 +1143,7 @@ func genHistory(r *lib.Rand, tier, stream string, i int) History {
 		g.st = stRandom
 	}
 	v := g.message(name, 0)
-	return History{Kind: "wire", Mode: stream, Msg: name, V: &v}
+	return History{Kind: "wire", Mode: stream, Msg: name, Fields: v.F}
 }
 
 func runStreams() {
